@@ -1,7 +1,7 @@
 #!/bin/bash
 # tools/sweep.sh <tier> <seed>...  — every check on the unchanged tree under the given seeds; prints one line per run
 tier=$1; shift
-cd /verif
+cd ${X_VERIF:-/verif}
 for seed in "$@"; do
   for i in $(seq -w 1 20); do
     out=$(VERIF_SEED=$seed bin/check C$i $tier 2>&1); rc=$?
